@@ -6,6 +6,7 @@ method of tpl/matcher/match.go.  Each theorem is a README sentence; they hold fo
 grammar, token list, position, fuel and return procedures.
 -/
 import GopModel.Lemmas.TplMatch
+import GopModel.Lemmas.TplTerm
 namespace GopModel.Tpl
 
 variable {α : Type}
@@ -507,12 +508,6 @@ theorem C29_fuel_stable (c : Cx α) (f k : Nat) (g : G) (i : Nat)
 
 /-! ## first-set conflicts (`Choices.CheckConflicts`) -/
 
-/-- A first-set element accepts a token. -/
-def FI.accepts (fi : FI) (t : Tok) : Bool :=
-  match fi with
-  | .tok k => t.kind == k
-  | .lit k l => t.kind == k && t.lit == l
-
 theorem conflictMe_false {me : FI} {next : List FI} (h : conflictMe me next = false) :
     ∀ x ∈ next, ∀ t, me.accepts t = true → x.accepts t = true →
       (∃ k l, me = .lit k l) ∧ (∃ k, x = .tok k) := by
@@ -569,6 +564,36 @@ theorem C29_conflict_detection_sound : ∀ (firsts : List (List FI)) (i j : Nat)
       obtain ⟨j', rfl⟩ : ∃ j', j = j' + 1 := ⟨j - 1, by omega⟩
       simp only [stopsOf, List.getElem?_cons_succ] at hs hi hj
       exact ih i' j' me nx hs (by omega) hi hj m hm x hx t hmt hxt
+
+/-- First-set soundness: whenever `g` consumes a token at position `i` — successfully or
+before failing — that token is accepted by an element of `g.First(nil)` (grammars as compiled:
+no empty sequence; `env'` = the rule table `First` sees, possibly with rules under visit removed). -/
+theorem C29_first_sound (c : Cx α) (henv : ∀ x b, c.env.find x = some b → b.wf c.env = true)
+    (f : Nat) (g : G) (i : Nat) (hwf : g.wf c.env = true) (hp : Progress (matchF c f g i).1)
+    (f' : Nat) (fs : List FI) (me : Bool) (hfs : firstF f' c.env g = .ok fs me) :
+    ∃ t, c.toks[i]? = some t ∧ ∃ fi ∈ fs, fi.accepts t = true :=
+  matchF_first_sound c henv f g i hwf hp f' c.env fs me (SubEnv.refl _) hfs
+
+/-- Why committing is safe: if option `i` has `stops[i]` set and consumed input at `p`, a later
+option `j` can consume input at `p` only in the keyword-versus-token-class case
+(`"if" | IDENT`): otherwise no later option could have matched more than the empty input. -/
+theorem C29_commit_sound (c : Cx α) (henv : ∀ x b, c.env.find x = some b → b.wf c.env = true)
+    (f f' : Nat) (opts : List G) (firsts : List (List FI)) (i j p : Nat) (gi gj : G)
+    (fsi fsj : List FI) (mei mej : Bool)
+    (hgi : opts[i]? = some gi) (hgj : opts[j]? = some gj) (hij : i < j)
+    (hwi : gi.wf c.env = true) (hwj : gj.wf c.env = true)
+    (hfi : firstF f' c.env gi = .ok fsi mei) (hfj : firstF f' c.env gj = .ok fsj mej)
+    (hi : firsts[i]? = some fsi) (hj : firsts[j]? = some fsj)
+    (hstop : (stopsOf firsts)[i]? = some true)
+    (hpi : Progress (matchF c f gi p).1) (hpj : Progress (matchF c f gj p).1) :
+    ∃ t, c.toks[p]? = some t ∧ ∃ k l k', FI.lit k l ∈ fsi ∧ (FI.lit k l).accepts t = true ∧
+      FI.tok k' ∈ fsj ∧ (FI.tok k').accepts t = true := by
+  obtain ⟨t, ht, fi, hfi', hai⟩ := C29_first_sound c henv f gi p hwi hpi f' fsi mei hfi
+  obtain ⟨t', ht', fj, hfj', haj⟩ := C29_first_sound c henv f gj p hwj hpj f' fsj mej hfj
+  rw [ht] at ht'; cases ht'
+  obtain ⟨⟨k, l, rfl⟩, ⟨k', rfl⟩⟩ :=
+    C29_conflict_detection_sound firsts i j fsi fsj hstop hij hi hj fi hfi' fj hfj' t hai haj
+  exact ⟨t, ht, k, l, k', hfi', hai, hfj', haj⟩
 
 /-! ## the match succeeds or fails (it does not panic) -/
 
